@@ -81,8 +81,8 @@ func ruleErr(p *Prog, r *Report) {
 
 func controlsC16(cp *Prog, r *Report) {
 	expectControl(r, "R-GEN", func(cr *Report) {
-		ruleGen(cp, cr, "R-GEN", func(f *ssa.Function) bool {
+		ruleGenReaders(cp, cr, "R-GEN", func(f *ssa.Function) bool {
 			return fnPkg(f) != nil && fnPkg(f).Path() == "ctl/des"
 		}, nil, 4)
-	}, "(*des.entry).readBad", "des.stringBad", "des.stampCallerBad")
+	}, "(*des.entry).readBad", "des.stringBad", "des.stampCallerBad", "des.docWrapBad", "des.signBad", "des.fillBad")
 }
